@@ -69,7 +69,15 @@ func newDataStoreSet(l lane.Lane, basePath string, phook *DispatchHook) *dataSto
 }
 
 func (dss *dataStoreSet) save(l lane.Lane) error {
+	// databases come into existence (SELECT) while the saver runs
+	dss.mu.Lock()
+	dbs := make(map[int]*dataStore, len(dss.dbs))
 	for index, ds := range dss.dbs {
+		dbs[index] = ds
+	}
+	dss.mu.Unlock()
+
+	for index, ds := range dbs {
 		dsc := ds.newDataStoreCommand()
 		err := dsc.save(l, dss.dataStoreFileName(index))
 		if err != nil {
